@@ -40,6 +40,7 @@ import datetime as dt
 import enum
 import io
 import json
+import re
 import os
 import sys
 import tempfile
@@ -1850,6 +1851,16 @@ class C02(fw.Check):
             if "DictWriter.to_dict raised ParserException" in failure or \
                     ("save/load raised ParserException" in failure and "contains a comma" in failure):
                 return "C02-tuple-item-comma"
+        # a Property of an n-tuple dtype whose stored value is None (the open C05 finding
+        # C05-tuple-empty-item-stored-as-none: `p.values = ['']` on a tuple Property stores [None], pinned by
+        # test_dtypes.test_tuple) makes every writer raise TypeError from ";".join(None): narrow - this exception,
+        # this message, and the document written at that step really holds such a value
+        m = re.match(r"step (\d+) ", failure)
+        if m and "save/load raised TypeError: can only join an iterable" in failure:
+            steps = obs.get("steps", []) if isinstance(obs, dict) else []
+            i = int(m.group(1))
+            if i < len(steps) and _has_tuple_none(steps[i].get("orig")):
+                return "C02-tuple-value-none"
         return None
 
     def tag(self, case, obs):
@@ -1871,6 +1882,17 @@ class C02(fw.Check):
             r = obs.get("strict", {})
             return ("malformed:%s:%s" % (case["mutation"], r.get("raised", "ok")), True)
         return (st, True)
+
+
+def _has_tuple_none(snapshot):
+    """does the document snapshot hold a Property of an n-tuple dtype with a value that is None?"""
+    def sec(s):
+        for pr in s.get("props", []) or []:
+            dt = pr.get("dtype")
+            if isinstance(dt, str) and dt.endswith("-tuple") and any(v is None for v in (pr.get("values") or [])):
+                return True
+        return any(sec(x) for x in (s.get("secs", []) or []))
+    return isinstance(snapshot, dict) and any(sec(x) for x in (snapshot.get("secs", []) or []))
 
 
 def _snap_strings(snapshot):
